@@ -23,12 +23,12 @@ type PropDef struct {
 	Skip []string
 }
 
-var graphSetPosts = []string{"C09:add:", "C09:union:", "C10:", "C08:add:", "C08:union:", "C08:intersect:", "C08:remove:", "C12:copy:", "C08:indexNodes:", "C08:indexRoots:", "C08:idx", "C15:", "C12:inv", "C16:inv", "C16:roots:", "C16:purlType:", "C08:inv", "C09:inv", "C10:inv", "C08:cleanEdges:closedFrom", "C08:cleanEdges:closedTo", "C08:cleanEdges:oneEdgePerSourceAndType", "C08:cleanEdges:noRepeatedTargets"}
+var graphSetPosts = []string{"C09:add:", "C09:union:", "C10:", "C08:add:", "C08:union:", "C08:intersect:", "C08:remove:", "C12:copy:", "C08:indexNodes:", "C08:indexRoots:", "C08:idx", "C15:", "C12:inv", "C03:inv", "C01:inv", "C16:inv", "C16:roots:", "C16:purlType:", "C08:inv", "C09:inv", "C10:inv", "C08:cleanEdges:closedFrom", "C08:cleanEdges:closedTo", "C08:cleanEdges:oneEdgePerSourceAndType", "C08:cleanEdges:noRepeatedTargets"}
 
 var propDefs = map[string]PropDef{
-	"C01": {Classes: []string{"TABLE", "LEMMA", "POST", "INV", "PRE"}, Level: "proof"},
+	"C01": {Classes: []string{"TABLE", "LEMMA", "POST", "INV", "PRE"}, Level: "proof", Skip: []string{"C03:inv"}},
 	"C02": {Classes: []string{"TABLE", "LEMMA", "POST", "INV", "PRE"}, Level: "proof"},
-	"C03": {Classes: []string{"LEMMA", "POST", "INV", "PRE"}, Level: "proof"},
+	"C03": {Classes: []string{"LEMMA", "POST", "INV", "PRE"}, Level: "proof", Skip: []string{"C01:inv"}},
 	"C04": {Classes: []string{"SAFE", "POST", "PRE", "INV", "OWN"}, Level: "proof", Skip: graphSetPosts},
 	"C05": {Classes: []string{"POST", "LEMMA", "INV", "PRE"}, Level: "proof"},
 	"C06": {Classes: []string{"TABLE", "LEMMA", "POST", "TRACE", "PRE", "INV"}, Level: "proof"},
@@ -234,7 +234,7 @@ func cmdCheck(args []string) int {
 			specsUsed[n] = true
 		}
 		for _, o := range vc.obls {
-			if o.Class == "CAND" || !belongs(o, *prop, classes) {
+			if o.Class == "CAND" || !(belongs(o, *prop, classes) || frameDuty(vc, o)) {
 				continue
 			}
 			total++
@@ -462,4 +462,11 @@ func without(list []string, drop ...string) []string {
 		}
 	}
 	return out
+}
+
+// frameDuty: the entry-version reads of an "assigns \nothing" function rest on
+// its FRAME obligations.  When no property that owns the FRAME class lists the
+// function, these obligations are counted in every property run that verifies it.
+func frameDuty(vc *VC, o *Obl) bool {
+	return o.Class == "FRAME" && vc.pureFrame && !vc.frameOwned
 }
